@@ -25,16 +25,19 @@ LOGIC_TEXT = {
 
 
 class Rule:
-    __slots__ = ("pattern", "children", "glob", "ordered", "rewrite", "logic", "ignore", "uid", "nkeys")
+    __slots__ = ("pattern", "children", "glob", "ordered", "rewrite", "logic", "ignore", "uid", "nkeys", "written")
     _n = 0
 
     def __init__(self, pattern, children=(), glob=False, ordered=False, rewrite=False, logic=None, ignore=False, nkeys=None):
         self.pattern = pattern
         self.children = list(children)
         self.glob = glob
+        # what the rule line says, and what is in force: the rule compiler gives %ordered precedence over %rewrite, and
+        # both over an explicit %logic (annet/rulebook/patching.py: _compile_patching); a %global rule has no children
+        self.written = (ordered, rewrite, logic)
         self.ordered = ordered
-        self.rewrite = rewrite
-        self.logic = logic
+        self.rewrite = rewrite and not ordered
+        self.logic = None if (ordered or rewrite) else logic
         self.ignore = ignore
         self.nkeys = nkeys          # force this many keys in the universe (e.g. 3 rows of an %ordered rule)
         Rule._n += 1
@@ -44,16 +47,18 @@ class Rule:
         s = ("!" if self.ignore else "") + self.pattern
         if self.glob:
             s += " %global"
-        if self.ordered:
+        ordered, rewrite, logic = self.written
+        if ordered:
             s += " %ordered"
-        if self.rewrite:
+        if rewrite:
             s += " %rewrite"
-        s += LOGIC_TEXT[self.logic]
+        s += LOGIC_TEXT[logic]
         return s
 
     def flags(self):
-        return [f for f, on in (("global", self.glob), ("ordered", self.ordered), ("rewrite", self.rewrite),
-                                (self.logic, self.logic), ("ignore", self.ignore)) if on]
+        ordered, rewrite, logic = self.written
+        return [f for f, on in (("global", self.glob), ("ordered", ordered), ("rewrite", rewrite),
+                                (logic, logic), ("ignore", self.ignore)) if on]
 
     def to_json(self):
         return {"p": self.pattern, "f": self.flags(), "c": [c.to_json() for c in self.children], "k": self.nkeys}
